@@ -63,6 +63,19 @@ func genC11(r *sim.Rand, tier string) *sim.Program {
 		}
 		return n
 	}
+	if cipherOps && r.Chance(1, 300) {
+		// a long life: the stream runs far past a thousand buckets / rounds, then the caller seeks back to positions
+		// on both sides of bucket 1024 (and of 2^16 and 2^17 octets)
+		far := r.PickInt(132000, 140000, 200000, 270000)
+		p.Add("xor", far, 0, r.Intn(256))
+		pos = far
+		for k := r.Range(2, 5); k > 0; k-- {
+			off := r.PickInt(131072, 131071, 131200, 65536, 65535, 131072+r.Intn(far-131072), r.Intn(far), 1024*r.PickInt(127, 128, 129, 255, 256, 257))
+			n := lenPick()
+			p.Add("xorat", n, 0, r.Intn(256), off)
+			pos = off + n
+		}
+	}
 	for i := 0; i < nops; i++ {
 		useCipher := cipherOps && (!macOps || r.Bool())
 		if useCipher {
